@@ -198,6 +198,113 @@ def gen_wrapper(rng, thorough):
                 wall=sec, vals=vals, tag=tag)
 
 
+_TRANS = {}
+
+
+def zone_transitions(zone, year):
+    """Changes of UTC offset of `zone` during `year`, found by bisection on the system's zone data
+    (generator side only): [(wall-clock second at which the clock is moved, shift in seconds)].
+    shift > 0: the wall-clock readings [w, w+shift) do not exist; shift < 0: [w+shift, w) occur twice."""
+    key = (zone, year)
+    if key not in _TRANS:
+        import datetime as dt
+        import zoneinfo
+        name = zone.split("/", 1)[1] if zone.startswith("dateutil/") else zone
+        out = []
+        try:
+            z = zoneinfo.ZoneInfo(name)
+            ep = dt.datetime(1970, 1, 1, tzinfo=dt.timezone.utc)
+
+            def off(s):
+                return int((ep + dt.timedelta(seconds=s)).astimezone(z).utcoffset().total_seconds())
+            s0 = int((dt.datetime(year, 1, 1, tzinfo=dt.timezone.utc) - ep).total_seconds())
+            prev = off(s0)
+            for d in range(1, 367):
+                o = off(s0 + d * 86400)
+                if o != prev:
+                    lo, hi = s0 + (d - 1) * 86400, s0 + d * 86400
+                    while hi - lo > 1:
+                        mid = (lo + hi) // 2
+                        if off(mid) == prev:
+                            lo = mid
+                        else:
+                            hi = mid
+                    out.append((hi + prev, o - prev))
+                    prev = o
+        except Exception:                       # zone unknown to this system: never chosen
+            out = []
+        _TRANS[key] = out
+    return _TRANS[key]
+
+
+def gen_wrapper_dst(rng, thorough):
+    """A time-zone aware series in a zone whose UTC offset changes, placed on a change of offset:
+    non-decreasing wall-clock stamps that all exist in the zone (readings inside a skipped interval are
+    dropped), stamps inside a repeated interval flagged first/second occurrence so that the instants are
+    non-decreasing too.  The series spans the change (most cases), starts inside / just after it, or ends
+    just after it; stamps on the edges of the skipped / repeated interval are added."""
+    for _ in range(200):
+        zone = rng.choice(DST_ZONES)
+        year = rng.choice([rng.randint(1950, 2189), rng.randint(1972, 2030), rng.randint(1990, 2025)])
+        tr = zone_transitions(zone, year)
+        if not tr:
+            continue
+        Tw, J = rng.choice(tr)
+        P = rng.choice([1800, 3600])
+        rain = rng.choice([False, True])
+        maxgap = rng.choice([3600, 3601, 7200, 86400, 5 * 86400, None, None, rng.randint(3600, 20000)])
+        if abs(J) > 7200:                            # a skipped day: keep the interval across it valid
+            maxgap = rng.choice([None, 5 * 86400, 2 * 86400])
+        nmax = 100 if thorough else 30
+        n = rng.choice([2, 3, 4, rng.randint(2, nmax), rng.randint(2, nmax)])
+        after = Tw + max(J, 0)                       # first reading of the new offset (shift > 0)
+        place = rng.choice(["span"] * 7 + ["start-in", "start-after", "end-at"])
+        if place == "start-in":                      # first stamp inside the repeated interval / on the change
+            t0 = Tw + (rng.randint(J, -1) if J < 0 else rng.choice([-1, J, J + 1]))
+        elif place == "start-after":
+            t0 = after + rng.choice([0, 1, 600, rng.randint(0, 7200)])
+        else:
+            t0 = Tw - rng.choice([1, 60, 1799, 1800, 1801, 3599, 3600, 3601, rng.randint(1, 3 * 3600),
+                                  rng.randint(1, 3 * 3600), rng.randint(1, 86400), rng.randint(1, 3 * 86400)])
+        origin = t0 // 3600 * 3600 + 3600
+        sec = gen_stamps(rng, t0, n, P, origin)
+        if rng.random() < 0.5:                       # stamps on the edges of the change
+            extra = rng.sample([Tw - 1, Tw, Tw + J, Tw + J - 1, after, after + 1, Tw - P, Tw + abs(J) + P,
+                                Tw - 3600], rng.randint(1, 3))
+            sec = [sec[0]] + sorted(sec[1:] + [t for t in extra if t >= sec[0]])
+        tail = rng.choice([0, 1, 600, P, 3600, 7200, 86400])
+        if place == "end-at":
+            tail = rng.choice([0, 1, 60])
+        while (sec[-1] - sec[0] < 2 * P or sec[-1] <= origin
+               or (place in ("span", "end-at") and sec[-1] < max(Tw, after) + tail)):
+            sec.append(sec[-1] + rng.choice([P, 600, 2 * P, 3601, 1, 1200]))
+        # first / second occurrence of the repeated readings: first.., ..second, or a switch in between
+        mode = rng.choice(["first", "second", "switch", "switch"])
+        k = rng.randint(0, len(sec))
+        amb = [mode == "first" or (mode == "switch" and i < k) for i in range(len(sec))]
+        unit = rng.choice(UNITS)
+        try:
+            import pandas as pd
+            idx = pd.DatetimeIndex(np.array(sec, dtype="int64").astype("datetime64[s]")).tz_localize(
+                zone, ambiguous=np.array(amb, dtype=bool), nonexistent="NaT")
+        except Exception:
+            continue
+        keep = [not bad for bad in idx.isna()]
+        sec = [t for t, kp in zip(sec, keep) if kp]
+        amb = [a for a, kp in zip(amb, keep) if kp]
+        if len(sec) < 2 or sec[-1] - sec[0] < 2 * P or sec[-1] <= sec[0] // 3600 * 3600 + 3600:
+            continue
+        if (sec[-1] - sec[0]) // P > 600:
+            continue
+        inst = [int(x) for x in idx[np.array(keep, dtype=bool)].asi8]
+        if any(b < a for a, b in zip(inst, inst[1:])):     # instants must be non-decreasing as well
+            continue
+        vals = gen_values(rng, len(sec))
+        return dict(level="wrapper", P=P, rain=rain, maxgap=maxgap, unit=unit, tz=zone, amb=amb,
+                    wall=sec, vals=vals, tag="ok", change=[Tw, J, place])
+    raise RuntimeError("no zone with a change of UTC offset is available on this system")
+
+
 # ----------------------------------------------------------------------------
 # running the implementation
 
@@ -248,10 +355,13 @@ def _dutils():
     return dutils
 
 
-def make_index(wall, unit, tz):
+def make_index(wall, unit, tz, amb=None):
+    """amb: for each stamp, True = first occurrence of a repeated wall-clock reading (ignored elsewhere)"""
     import pandas as pd
     idx = pd.DatetimeIndex(np.array(wall, dtype="int64").astype("datetime64[s]")).as_unit(unit)
-    if tz is not None:
+    if tz is not None and amb is not None:
+        idx = idx.tz_localize(_tzinfo(tz), ambiguous=np.array(amb, dtype=bool))
+    elif tz is not None:
         idx = idx.tz_localize(_tzinfo(tz))
     return idx
 
@@ -263,11 +373,12 @@ def _tzinfo(tz):
     return tz
 
 
-def run_wrapper(wall, vals, unit, tz, P, maxgap, rain):
-    """-> ("ok", t_first_label, [values]) | ("error", msg) | ("unsafe", msg)"""
+def run_wrapper(wall, vals, unit, tz, P, maxgap, rain, amb=None):
+    """-> ("ok", [labels], [values]) | ("error", msg) | ("unsafe", msg)
+    labels: wall-clock seconds of the returned index"""
     import pandas as pd
     dutils = _dutils()
-    se = pd.Series(np.array(vals, dtype=np.float64), index=make_index(wall, unit, tz))
+    se = pd.Series(np.array(vals, dtype=np.float64), index=make_index(wall, unit, tz, amb))
     kw = {} if maxgap is None else {"maxgapsec": maxgap}
     try:
         with np.errstate(all="ignore"):
@@ -282,16 +393,18 @@ def run_wrapper(wall, vals, unit, tz, P, maxgap, rain):
     return ("ok", labels, [float(x) for x in seh.values])
 
 
-def index_model_args(wall, unit, tz):
-    """(raw integers in UTC, offset in seconds) of the index, read from pandas"""
-    idx = make_index(wall, unit, tz)
+def index_model_args(wall, unit, tz, amb=None):
+    """(raw integers in UTC, offset in seconds, set of offsets) of the index, read from pandas"""
+    idx = make_index(wall, unit, tz, amb)
     raw = [int(x) for x in idx.asi8]
     if tz is None:
-        return raw, 0
+        return raw, 0, {0}
     offs = {int(t.utcoffset().total_seconds()) for t in idx}
     if len(offs) != 1:
-        return None, None          # offset changes inside the series: not modelled, case skipped
-    return raw, offs.pop()
+        # offset changes inside the series: outside the model (Model/Var2h.v takes one offset);
+        # the case is checked by the oracle only
+        return None, None, offs
+    return raw, min(offs), offs
 
 
 # ----------------------------------------------------------------------------
@@ -421,8 +534,14 @@ def oracle_kernel(case, out):
                           case["rain"] == 1, out, "c_var2h", check_last=False)
 
 
-def oracle_wrapper(case, res, ref):
-    """res: result on the case's index; ref: result on the same wall clock stored as naive ns."""
+def _veq(a, b):
+    return (math.isnan(a) and math.isnan(b)) or a == b
+
+
+def oracle_wrapper(case, res, ref, rerun=None):
+    """res: result on the case's index; ref: result on the same wall clock stored as naive ns;
+    rerun(unit, tz): result on the same wall clock with another index (used to name the clause
+    that fails: storage resolution or time zone)."""
     tag = case["tag"]
     if tag in ("bad-period", "bad-maxgap"):
         return [] if res[0] == "error" else [("C14/var2h/bad-argument-accepted", f"{tag} accepted")]
@@ -431,14 +550,24 @@ def oracle_wrapper(case, res, ref):
     fails = []
     mg = 5 * 86400 if case["maxgap"] is None else case["maxgap"]
     what_idx = f"unit={case['unit']} tz={case['tz']}"
+    if case.get("change"):
+        what_idx += (f" (clock moved by {case['change'][1]} s at wall-clock second {case['change'][0]}, "
+                     f"series {case['wall'][0]}..{case['wall'][-1]})")
+
+    def which():
+        """the clause of the independence statement that fails"""
+        if case["tz"] is None:
+            return "index-unit"
+        if case["unit"] == "ns" or rerun is None:
+            return "time-zone"
+        r2 = rerun(case["unit"], None)               # same unit, naive
+        same_u = (r2[0] == ref[0] and (r2[0] != "ok" or (
+            r2[1] == ref[1] and len(r2[2]) == len(ref[2]) and all(_veq(x, y) for x, y in zip(r2[2], ref[2])))))
+        return "time-zone" if same_u else "index-unit"
+
     if res[0] != "ok":
         # an input inside the quantifier was rejected (or could not be run safely)
-        if ref[0] == "ok" and case["unit"] != "ns":
-            key = "C14/var2h/depends-on-index-unit"
-        elif ref[0] == "ok":
-            key = "C14/var2h/depends-on-time-zone"
-        else:
-            key = "C14/var2h/valid-input-rejected"
+        key = f"C14/var2h/depends-on-{which()}" if ref[0] == "ok" else "C14/var2h/valid-input-rejected"
         return [(key, f"{what_idx}: {res[0]}: {res[1]}"
                       + ("; the same series with a naive ns index is converted" if ref[0] == "ok" else ""))]
     labels, out = res[1], res[2]
@@ -450,16 +579,25 @@ def oracle_wrapper(case, res, ref):
                             "var2h", check_last=True)
     if ref[0] == "ok":
         same = (labels == ref[1] and len(out) == len(ref[2]) and
-                all((math.isnan(a) and math.isnan(b)) or a == b for a, b in zip(out, ref[2])))
-        if not same:
-            key = ("C14/var2h/depends-on-index-unit" if case["unit"] != "ns"
-                   else "C14/var2h/depends-on-time-zone")
-            j = next((j for j, (a, b) in enumerate(zip(out, ref[2]))
-                      if not ((math.isnan(a) and math.isnan(b)) or a == b)), None)
-            fails.append((key, f"{what_idx}: result differs from the one for the naive ns index "
-                               f"(first difference at {j}: "
-                               f"{out[j] if j is not None else labels[:2]!r} vs "
-                               f"{ref[2][j] if j is not None else ref[1][:2]!r})"))
+                all(_veq(a, b) for a, b in zip(out, ref[2])))
+        # the two results differ by their extent only: same first label, another number of periods,
+        # identical values before the final period of the shorter one
+        m = min(len(out), len(ref[2])) - 1
+        extent_only = (not same and len(out) != len(ref[2]) and (m < 0 or labels[:1] == ref[1][:1])
+                       and all(_veq(out[j], ref[2][j]) for j in range(max(m, 0))))
+        if extent_only:
+            fails.append((f"C14/var2h/output-extent-depends-on-{which()}",
+                          f"{what_idx}: {len(out)} periods are returned, {len(ref[2])} for the same "
+                          f"wall-clock series with a naive ns index (the values before the final period "
+                          f"of the shorter result are identical; value at position {m}: "
+                          f"{out[m] if m >= 0 else None!r} vs {ref[2][m] if m >= 0 else None!r})"))
+        elif not same:
+            j = next((j for j, (a, b) in enumerate(zip(out, ref[2])) if not _veq(a, b)), None)
+            fails.append((f"C14/var2h/depends-on-{which()}",
+                          f"{what_idx}: result differs from the one for the naive ns index "
+                          f"(first difference at {j}: "
+                          f"{out[j] if j is not None else labels[:2]!r} vs "
+                          f"{ref[2][j] if j is not None else ref[1][:2]!r})"))
     return fails
 
 
@@ -470,9 +608,10 @@ def py_call(case):
                 % (case["hinit"], case["maxgap"], case["hstart"], case["P"], case["rain"],
                    case["sec"], case["vals"])).replace("nan", "np.nan")
     kw = "" if case["maxgap"] is None else f", maxgapsec={case['maxgap']}"
+    amb = "" if case.get("amb") is None else f", ambiguous=np.array({case['amb']!r})"
     tz = "" if case["tz"] is None else (
         f".tz_localize(datetime.timezone(datetime.timedelta(minutes={case['tz'][6:]})))"
-        if case["tz"].startswith("fixed:") else f".tz_localize({case['tz']!r})")
+        if case["tz"].startswith("fixed:") else f".tz_localize({case['tz']!r}{amb})")
     return ("import datetime, numpy as np, pandas as pd; from hydrodiy.data import dutils; "
             "idx=pd.DatetimeIndex(np.array(%r, dtype='int64').astype('datetime64[s]')).as_unit(%r)%s; "
             "print(dutils.var2h(pd.Series(np.array(%r), index=idx), nbsec_per_period=%d, rainfall=%r%s))"
@@ -509,9 +648,12 @@ def signature(case, out_kind, nout):
                 any(v < 0 for v in case["vals"]), out_kind, min(nout, 3),
                 case["maxgap"] == 3600, (case["hstart"] - sec[0]) in (0, 3600))
     w = case["wall"]
+    ch = case.get("change")
+    chsig = None if not ch else (ch[1], ch[2], w[0] < ch[0], w[-1] >= ch[0] + max(ch[1], 0),
+                                 (ch[0] - w[0]) < 3600, case["amb"][0], case["amb"][-1])
     return ("w", case["P"], case["rain"], case["tag"], case["unit"], case["tz"], min(len(w), 5),
             len(set(w)) < len(w), any(math.isnan(v) for v in case["vals"]),
-            any(v < 0 for v in case["vals"]), out_kind, case["maxgap"] is None)
+            any(v < 0 for v in case["vals"]), out_kind, case["maxgap"] is None, chsig)
 
 
 def run(ctx):
@@ -561,19 +703,31 @@ def run(ctx):
                     signature(case, "err" if out is None else "ok", 0 if out is None else len(out)))
             fails = oracle_kernel(case, out)
         else:
-            raw, off = index_model_args(case["wall"], case["unit"], case["tz"])
-            if raw is None:
-                ctx.notes["skipped_varying_offset"] = ctx.notes.get("skipped_varying_offset", 0) + 1
-                return
+            amb = case.get("amb")
+            raw, off, offs = index_model_args(case["wall"], case["unit"], case["tz"], amb)
             res = run_wrapper(case["wall"], case["vals"], case["unit"], case["tz"],
-                              case["P"], case["maxgap"], case["rain"])
-            ref = res if (case["unit"] == "ns" and case["tz"] is None) else \
-                run_wrapper(case["wall"], case["vals"], "ns", None, case["P"], case["maxgap"], case["rain"])
-            replay = dict(case, utc_offset=off, impl_result=list(res), python=py_call(case))
-            i = add(term_wrapper(case, raw, off, res), replay,
-                    signature(case, res[0], len(res[2]) if res[0] == "ok" else 0))
-            fails = oracle_wrapper(case, res, ref)
-            ctx.count()
+                              case["P"], case["maxgap"], case["rain"], amb)
+
+            def rerun(unit, tz):
+                ctx.count()
+                return run_wrapper(case["wall"], case["vals"], unit, tz, case["P"], case["maxgap"],
+                                   case["rain"], amb if tz is not None else None)
+            ref = res if (case["unit"] == "ns" and case["tz"] is None) else rerun("ns", None)
+            replay = dict(case, utc_offset=off if raw is not None else sorted(offs),
+                          impl_result=list(res), python=py_call(case))
+            sig = signature(case, res[0], len(res[2]) if res[0] == "ok" else 0)
+            fails = oracle_wrapper(case, res, ref, rerun)
+            if raw is None:
+                # UTC offset changing inside the series: no model term (oracle only)
+                ctx.notes["oracle_only_varying_offset"] = ctx.notes.get("oracle_only_varying_offset", 0) + 1
+                ctx.count(sig + (len(offs),))
+                if ctx.notes["oracle_only_varying_offset"] % 60 == 1:
+                    ctx.sample({k: (v[:8] if isinstance(v, list) else v) for k, v in replay.items()})
+                for key, what in fails:
+                    ctx.failure(key, replay, what)
+                cases.append(case)
+                return
+            i = add(term_wrapper(case, raw, off, res), replay, sig)
         for key, what in fails:
             orc_fail.add(i)
             ctx.failure(key, replays[i], what)
@@ -592,6 +746,8 @@ def run(ctx):
             do_case(gen_kernel(rng, ctx.thorough))
         for _ in range(nw):
             do_case(gen_wrapper(rng, ctx.thorough))
+        for _ in range(ctx.scale(170, 2600)):
+            do_case(gen_wrapper_dst(rng, ctx.thorough))
 
     bad, nshards, failed = cm.run_case_files(PID, HEADER, "vcase", "v_ok", terms, shard=120)
     ctx.notes["correspondence_cases"] = len(terms)
